@@ -78,3 +78,52 @@ func Rep(p RPt, mode int, lambdaSeed uint64) RPt {
 
 // SameTriple reports whether two representations are bit-identical.
 func SameTriple(a, b RPt) bool { return a.X == b.X && a.Y == b.Y && a.Z == b.Z }
+
+// TieProduct rescales ONE element of the list (the first that occurs exactly once) so that the product over all list
+// entries (with multiplicity) of the chosen coordinate ("Z" or "Y") becomes exactly `target` — a relation between the
+// inputs of one batch call that random representations never satisfy (batch routines accumulate such products).
+// Every element keeps denoting the same point. It reports whether the relation could be established.
+func TieProduct(list []*banderwagon.Element, coord string, target gfr.Element) bool {
+	count := map[*banderwagon.Element]int{}
+	for _, e := range list {
+		count[e]++
+	}
+	var pick *banderwagon.Element
+	for _, e := range list {
+		if count[e] == 1 {
+			pick = e
+			break
+		}
+	}
+	if pick == nil {
+		return false
+	}
+	get := func(e *banderwagon.Element) gfr.Element {
+		if coord == "Y" {
+			return e.VerifInner().Y
+		}
+		return e.VerifInner().Z
+	}
+	var prod gfr.Element
+	prod.SetOne()
+	for _, e := range list {
+		if e != pick {
+			c := get(e)
+			prod.Mul(&prod, &c)
+		}
+	}
+	own := get(pick)
+	if prod.IsZero() || own.IsZero() {
+		return false
+	}
+	// lambda * own * prod = target
+	var l gfr.Element
+	l.Mul(&own, &prod)
+	l.Inverse(&l)
+	l.Mul(&l, &target)
+	if l.IsZero() {
+		return false
+	}
+	*pick = ToImpl(Rescale(FromImpl(pick), l))
+	return true
+}
